@@ -182,6 +182,8 @@ def classify(finding, case):
         return any(n[0] == "pi" and n[2][:1] and n[2][0] in XML_WS for n in nodes)
     if cls == "namespace-uri-not-escaped":
         return any(n[0] == "tag" and any(c in ns for c in "&<\"" for ns in [n[1]] + [a[0] for a in n[3]]) for n in nodes)
+    if cls == "element-in-xmlns-namespace":
+        return any(n[0] == "tag" and n[1] == XMLNS_NS for n in nodes)
     if cls == "attribute-named-xmlns":
         return any(n[0] == "tag" and any((a[0] == "" and a[1] == "xmlns") or a[0] == XMLNS_NS for a in n[3]) for n in nodes)
     return False
@@ -419,7 +421,7 @@ def fixed_cases():
 
 
 def run(ctx, args):
-    ctx.regen(["GenWs.v", "GenNames.v", "GenNs.v", "GenValidators.v"])
+    ctx.regen(["GenWs.v", "GenNames.v", "GenNs.v", "GenValidators.v", "GenNsValidators.v"])
     ctx.build("Props/C02.vo")
     if args.replay:
         with open(args.replay) as f:
@@ -429,6 +431,7 @@ def run(ctx, args):
             check_cases(ctx, [{k: case.get(k) for k in ("route", "mapping", "src", "tree", "child", "at") if k in case}])
         return ctx.finish("replay of " + args.replay, level="proof", replay_open=replay_open, explanation=EXPLANATION)
     quick = ctx.tier == "quick"
+    nsgen.check_validators(ctx, REQ)
     cases = fixed_cases()
     n = 420 if quick else 9000
     for i in range(n):
